@@ -170,7 +170,7 @@ package openapi3
 // off only the "must not be sent" half. (The code reads "sent" as "present with a non-null value".)
 //@ spec forbiddenProp(s *Schema, st *schemaValidationSettings, k string) bool :=
 //@     s.Properties[k] != nil && ((st.asreq && s.Properties[k].Value.ReadOnly && !st.readOnlyValidationDisabled) || (st.asrep && s.Properties[k].Value.WriteOnly && !st.writeOnlyValidationDisabled))
-//@ spec exemptProp(s *Schema, st *schemaValidationSettings, k string) bool opaque :=
+//@ spec exemptProp(s *Schema, st *schemaValidationSettings, k string) bool :=
 //@     s.Properties[k] != nil && ((st.asreq && s.Properties[k].Value.ReadOnly) || (st.asrep && s.Properties[k].Value.WriteOnly))
 //@ spec modeOK(s *Schema, st *schemaValidationSettings, o map[string]any) bool opaque :=
 //@     (st.asreq || st.asrep) ==> (forall k string :: forbiddenProp(s, st, k) ==> o[k] == nil)
@@ -184,7 +184,6 @@ package openapi3
 //@ spec resolvedProps(s *Schema) bool opaque := forall k string :: s.Properties[k] != nil ==> s.Properties[k].Value != nil
 //@ func (*Schema).visitJSONObject
 //@   requires schema != nil && settings != nil && wfDeep(schema)
-//@   assuming !settings.asreq && !settings.asrep
 //@   assuming settings.defaultsSet == nil
 //@   assuming resolvedProps(schema)
 //@   assuming schema.AdditionalProperties.Schema != nil ==> schema.AdditionalProperties.Schema.Value != nil
